@@ -609,6 +609,9 @@ type loopInfo struct {
 	accOrigin map[*ssa.Alloc]string
 	accOwn    []func(Term) Term
 	accGet    []func(*State) (Term, bool)
+	accRel     []func(Term) Term
+	accRelGet  []func(*State) (Term, bool)
+	accRelName []string
 	autoFramed map[string]bool
 	writesSeen map[string][]string
 	probeCtr0  int
